@@ -40,9 +40,17 @@ func runTerm() {
 		}
 		switch c.Pc {
 		case "hang":
-			k.hang, k.why = true, c.Why
+			k.hang = true
 		case "rejected":
 			k.rejected = true
+		}
+		switch {
+		case c.Why != "":
+			// the model diverges here (old dialect) or needed the zero-progress guard (repaired dialect)
+			k.why = c.Why
+		case c.Acc && !c.Accg && k.why == "":
+			// only the left-recursion check of the repaired compiler rejects this grammar
+			k.why = "left-recursion"
 		}
 	})
 	sort.SliceStable(order, func(i, j int) bool {
@@ -59,9 +67,13 @@ func runTerm() {
 		jobs[i] = job{ID: i, Gram: k.gram, Input: k.input}
 	}
 	confirmed := map[string]int{} // cause -> real divergences seen
+	unpredicted := 0
 	skip := func(i int) bool {
 		k := order[i]
-		return k.hang && confirmed[k.why] >= hangSamplesPerCause
+		if k.why != "" {
+			return confirmed[k.why] >= hangSamplesPerCause
+		}
+		return unpredicted >= 40
 	}
 	nrun, nrej, nhang, nskip := 0, 0, 0, 0
 	runJobs(jobs, skip, func(i int, o outcome) {
@@ -72,12 +84,14 @@ func runTerm() {
 			model = "rejected"
 		} else if k.hang {
 			model = "diverges:" + k.why
+		} else if k.why != "" && k.why != "left-recursion" {
+			model = "halts thanks to the zero-progress guard (" + k.why + ")"
 		}
 		switch o.Kind {
 		case "not-run":
 			nskip++
 			res.V = "skip"
-			res.Detail = "model: " + model + "; cause already demonstrated on the real code, not executed"
+			res.Detail = "model: " + model + "; this cause of divergence has already been demonstrated on the real code, not executed"
 		case "rejected":
 			nrej++
 			res.NT = "rejected:" + k.shape
@@ -98,19 +112,17 @@ func runTerm() {
 			case o.Res.Panic != "":
 				res.V, res.Sig = "drift", "match-panics"
 				res.Detail = fmt.Sprintf("%q on %q: panic %s", k.gram, k.input, o.Res.Panic)
-			case !k.acc:
+			case !k.accg:
 				res.V, res.Sig = "drift", "model-rejects-code-accepts"
 			}
 		case "loop", "stack-overflow":
 			nhang++
-			why := k.why
-			if !k.hang {
-				why = "unpredicted"
-			}
-			confirmed[k.why]++
-			res.V, res.Sig = "viol", "hang:"+why
-			if !k.hang {
-				res.Sig += ":" + o.Kind
+			if k.why != "" {
+				confirmed[k.why]++
+				res.V, res.Sig = "viol", "hang:"+k.why
+			} else {
+				unpredicted++
+				res.V, res.Sig = "viol", "hang:unpredicted:"+o.Kind
 			}
 			res.NT = fmt.Sprintf("%s/%d", k.shape, len(k.input))
 			res.Detail = fmt.Sprintf("grammar %q accepted by tpl.New, input %q: the match does not return: %s (model: %s)",
